@@ -193,7 +193,7 @@ def run(chk: Check) -> None:
     # child launch
     la = prog.func('processes.Process.launch')
     ctor = [c for c in calls_in_func(la) if isinstance(c.func, ast.Name) and c.func.id == la.params[1]]
-    ok = len(ctor) == 1 and {k.arg: norm(k.value) for k in ctor[0].keywords}.get('loop') == 'self.loop'
+    ok = len(ctor) == 1 and {k.arg: norm(k.value) for k in ctor[0].keywords}.get('loop') in ('self.loop', 'self._loop')
     sp = [c for c in calls_in_func(la, 'create_task')]
     ok = ok and len(sp) == 1 and 'step_until_terminated()' in norm(sp[0].args[0])
     chk.ob('DOM-barrier-wait', la, ok, 'a launched child runs on the parent\'s loop and is stepped until it terminates (its future then completes)', kind='child-launch')
